@@ -99,6 +99,8 @@ type Stats struct {
 	Renderings     map[string]int `json:"object_renderings"`
 	AreaRenderings map[string]int `json:"area_renderings"`
 	Classes        map[string]int `json:"mismatch_classes"`
+	CorruptedSteps int            `json:"selftest_corrupted_steps"`
+	FlaggedSteps   int            `json:"steps_with_mismatch"`
 }
 
 func NewStats() *Stats {
@@ -125,6 +127,8 @@ func (s *Stats) Add(o *Stats) {
 	s.SparseThinned += o.SparseThinned
 	s.OtherKey += o.OtherKey
 	s.Audits += o.Audits
+	s.CorruptedSteps += o.CorruptedSteps
+	s.FlaggedSteps += o.FlaggedSteps
 	s.FillerSets += o.FillerSets
 	s.FillerDels += o.FillerDels
 	if o.MaxFillers > s.MaxFillers {
@@ -341,6 +345,9 @@ func (r *Runner) plan(b *Behaviour) fillerPlan {
 		p.base = 0
 	case 1:
 		p.base = 40 + r.rng.Intn(60) // around one node split (64 entries per node)
+		if p.base > r.o.Fillers {
+			p.base = r.o.Fillers
+		}
 	case 2:
 		p.base = r.o.Fillers / 4
 	default:
@@ -629,7 +636,12 @@ func (r *Runner) runOne(idx int, b *Behaviour, e *Embedding, st *Stats) ([]Misma
 		if len(table) != len(A.Areas) {
 			return nil, fmt.Errorf("table has %d areas, the area list %d", len(table), len(A.Areas))
 		}
-		table = r.corrupt(table, s)
+		var corrupted bool
+		table, corrupted = r.corrupt(table)
+		if corrupted {
+			st.CorruptedSteps++
+		}
+		nbefore := len(ms)
 		st.CheckedSteps++
 		st.ByEmbedding[e.Name]++
 		qs := r.queries(e, key, keyName(3-at), table, st)
@@ -658,42 +670,44 @@ func (r *Runner) runOne(idx int, b *Behaviour, e *Embedding, st *Stats) ([]Misma
 				}
 			}
 		}
+		if len(ms) > nbefore {
+			st.FlaggedSteps++
+		}
 	}
 	return ms, nil
 }
 
-// corrupt (self-test only) damages the expected table so that the comparison must notice.
-func (r *Runner) corrupt(table []Res, s Step) []Res {
+// corrupt (self-test only) damages the expected table of one rectangle so that the comparison must notice.
+func (r *Runner) corrupt(table []Res) ([]Res, bool) {
 	if r.o.Corrupt == "" {
-		return table
+		return table, false
 	}
 	out := make([]Res, len(table))
 	copy(out, table)
-	switch r.o.Corrupt {
-	case "drop": // forget one expected id somewhere
-		for j := range out {
+	for j := range out {
+		if r.o.Areas.Areas[j].K == "none" {
+			continue
+		}
+		switch r.o.Corrupt {
+		case "drop": // forget one expected id
 			if len(out[j].I) > 0 {
 				out[j].I = append([]int(nil), out[j].I[1:]...)
-				return out
+				return out, true
 			}
-		}
-	case "add": // expect an id that is not there in the first area that lacks one
-		for j := range out {
-			if len(out[j].W) < r.o.Areas.NIds {
-				have := map[int]bool{}
-				for _, x := range out[j].W {
-					have[x] = true
-				}
-				for x := 1; x <= r.o.Areas.NIds; x++ {
-					if !have[x] {
-						out[j].W = append(append([]int(nil), out[j].W...), x)
-						return out
-					}
+		case "add": // expect an id that the specification does not expect
+			have := map[int]bool{}
+			for _, x := range out[j].W {
+				have[x] = true
+			}
+			for x := 1; x <= r.o.Areas.NIds; x++ {
+				if !have[x] {
+					out[j].W = append(append([]int(nil), out[j].W...), x)
+					return out, true
 				}
 			}
 		}
 	}
-	return out
+	return out, false
 }
 
 func (r *Runner) queries(e *Embedding, key, other string, table []Res, st *Stats) []query {
